@@ -20,6 +20,7 @@ PKG = 'dznpy'
 #   ('str',) ('int',) ('bool',) ('none',) ('tuple', (T..)) ('any',) ('func', FuncInfo) ('type', clsname)
 # ---------------------------------------------------------------------------------------------
 ANY = ('any',)
+BOTTOM = ('bottom',)     # "no information yet" (cyclic definition); ignored by union
 STR = ('str',)
 INT = ('int',)
 BOOL = ('bool',)
@@ -39,6 +40,8 @@ def strip_opt(t):
 def union(ts: Iterable[tuple]) -> tuple:
     flat = []
     for t in ts:
+        if t == BOTTOM:
+            continue
         if t[0] == 'union':
             flat.extend(t[1])
         else:
@@ -464,8 +467,11 @@ class Program:
         """Type of attribute `attr` on instances of cls: dataclass field, property or method."""
         fields = self.class_fields(cls)
         if attr in fields:
-            ann, _d, owner = fields[attr]
-            return self.ann_to_type(owner.module, ann, owner)
+            ann, dflt, owner = fields[attr]
+            t = self.ann_to_type(owner.module, ann, owner)
+            if _default_is_none(dflt) and t != ANY:
+                t = t_opt(t)        # "x: T = None" is Optional[T] whatever the annotation says
+            return t
         m = self.lookup_method(cls, attr)
         if m is not None:
             if m.is_property:
@@ -482,6 +488,17 @@ class Program:
                                 and t.attr == attr:
                             return TypeEnv(self, init).type_of(n.value)
         return None
+
+
+def _default_is_none(dflt) -> bool:
+    if dflt is None:
+        return False
+    if isinstance(dflt, ast.Constant) and dflt.value is None:
+        return True
+    if isinstance(dflt, ast.Call) and getattr(dflt.func, 'id', getattr(dflt.func, 'attr', '')) == 'field':
+        return any(k.arg == 'default' and isinstance(k.value, ast.Constant) and k.value.value is None
+                   for k in dflt.keywords)
+    return False
 
 
 class TypeEnv:
@@ -510,6 +527,11 @@ class TypeEnv:
                 self.vars[a.arg] = t_cls(f.cls.fq)
                 continue
             self.vars[a.arg] = self.prog.ann_to_type(f.module, a.annotation, f.cls)
+        pos = list(args.posonlyargs) + list(args.args)
+        for p_, d in list(zip(pos[len(pos) - len(args.defaults):], args.defaults)) + \
+                [(p_, d) for p_, d in zip(args.kwonlyargs, args.kw_defaults) if d is not None]:
+            if _default_is_none(d) and self.vars.get(p_.arg, ANY) != ANY:
+                self.vars[p_.arg] = t_opt(self.vars[p_.arg])
         if args.vararg:
             self.vars[args.vararg.arg] = ('tuple', ())
         if args.kwarg:
@@ -557,7 +579,7 @@ class TypeEnv:
         if name in self.vars and name not in self._assign_sites:
             return self.vars[name]
         if name in self._building:
-            return ANY
+            return BOTTOM
         if name in self._assign_sites:
             self._building.add(name)
             try:
@@ -764,6 +786,8 @@ class TypeEnv:
                 return t_set(self.elem_type(self.type_of(e.args[0])) if e.args else ANY)
             if f.id == 'dict' and prog.resolve_name(self.mod, f.id) is None:
                 return ('dict', ANY, ANY)
+            if f.id == 'filter' and len(e.args) == 2 and prog.resolve_name(self.mod, f.id) is None:
+                return t_list(self.elem_type(self.type_of(e.args[1])))
             if f.id == 'deepcopy' or f.id == 'copy':
                 return self.type_of(e.args[0]) if e.args else ANY
         ft = self.type_of(f)
